@@ -393,11 +393,11 @@ def rule_p2h(ctx):
     rho = by_value(lambda st: norm(st.value) == "density(%s, %s)" % (pn, tn))
     rn = rho.targets[0].id if rho is not None else "rho"
     rl = by_value(lambda st: "%s[:-1]" % rn in norm(st.value) and "%s[1:]" % rn in norm(st.value))
-    ld = by_value(lambda st: norm(st.value) in ("np.diff(%s)" % pn,))
+    ld = by_value(lambda st: bool(calls_in(st.value, "diff")))
     if rho is None or rl is None or ld is None:
         raise AnalysisError("pressure2height: density of the levels / layer mean / pressure difference not found")
     rln, ldn = rl.targets[0].id, ld.targets[0].id
-    ok_r = norm(rl.value).replace(" ", "") in ("0.5*(%s[:-1]+%s[1:])" % (rn, rn), "(%s[:-1]+%s[1:])/2" % (rn, rn))
+    ok_r = norm(ld.value) == "np.diff(%s)" % pn and norm(rl.value).replace(" ", "") in ("0.5*(%s[:-1]+%s[1:])" % (rn, rn), "(%s[:-1]+%s[1:])/2" % (rn, rn))
     ctx.ob("pressure2height.layers", ok_r, "rho = %s; rho_layer = %s; layer_depth = %s" % tuple(norm(s.value) if s else None for s in (rho, rl, ld)),
            "rho = density(p, T); layer mean = (rho[:-1] + rho[1:])/2; dp = diff(p)", node=rl or f.node, func=f)
     # z: cumsum(-dp/(rho_layer*g))
